@@ -17,3 +17,57 @@ package dockerlog
 //@   ensures ret0 == forall(0, len(matchers), func(k int) bool { return match(matchers[k], c.labels[string(matchers[k].Label)]) })
 //@   loop 0 invariant rangeindex+1 <= len(matchers)
 //@   loop 0 invariant forall(0, rangeindex+1, func(k int) bool { return match(matchers[k], c.labels[string(matchers[k].Label)]) })
+
+// ---- C03: Docker log stream decoding
+//
+// A reader is an immutable byte stream readerData(rd) with a cursor readerPos(rd); once the data
+// is exhausted it reports EOF, or its own error if readerFails(rd).
+
+//@ scope daemonlog.go
+//@ ghost func readerData(rd io.Reader) string
+//@ ghost func readerFails(rd io.Reader) bool
+//@ ghost state func readerPos(rd io.Reader) int
+//@ ghost func bufferContent(b *bytes.Buffer) string
+
+//@ spec func be32(s string, at int) int {
+//@   return int(s[at])*16777216 + int(s[at+1])*65536 + int(s[at+2])*256 + int(s[at+3])
+//@ }
+
+//@ func parseDockerLine
+//@   capture cut = call(strings.Cut, 0)
+//@   capture tp  = call(time.Parse, 0)
+//@   modifies r.Body, r.ObservedTimestamp, r.Timestamp
+//@   ensures[split-at-first-space] cut_called && cut_a0 == input && cut_a1 == " "
+//@   ensures[no-space-is-an-error] !cut_r2 ==> ret0 != nil
+//@   ensures[message-is-the-rest]  ret0 == nil ==> r.Body == cut_r1
+//@   ensures[timestamp-is-the-prefix] cut_r2 ==> tp_called && tp_a0 == time.RFC3339Nano && tp_a1 == cut_r0
+//@   ensures[bad-timestamp-is-an-error] cut_r2 && tp_r1 != nil ==> ret0 != nil
+//@   ensures[nanosecond-exact] ret0 == nil ==> r.Timestamp == otelstorage.NewTimestampFromTime(tp_r0) && r.ObservedTimestamp == r.Timestamp
+
+//@ func (*streamIter).parseNext
+//@   capture pl = call(parseDockerLine, 0)
+//@   modifies *, readerPos(i.rd)
+//@   ensures[clean-end-inside-header] len(readerData(i.rd)) - old(readerPos(i.rd)) < 8 && !readerFails(i.rd) ==> !ret0 && ret1 == nil
+//@   ensures[header-read-error-surfaces] len(readerData(i.rd)) - old(readerPos(i.rd)) < 8 && readerFails(i.rd) ==> !ret0 && ret1 != nil
+//@   ensures[cut-inside-body-is-an-error] len(readerData(i.rd)) - old(readerPos(i.rd)) >= 8 && len(readerData(i.rd)) - old(readerPos(i.rd)) - 8 < be32(readerData(i.rd), old(readerPos(i.rd))+4) ==> !ret0 && ret1 != nil
+//@   ensures[daemon-error-frame-is-an-error] len(readerData(i.rd)) - old(readerPos(i.rd)) - 8 >= be32(readerData(i.rd), old(readerPos(i.rd))+4) && len(readerData(i.rd)) - old(readerPos(i.rd)) >= 8 && readerData(i.rd)[old(readerPos(i.rd))] == 3 ==> !ret0 && ret1 != nil
+//@   ensures[payload-is-the-frame-body] pl_called ==> pl_a1 == readerData(i.rd)[old(readerPos(i.rd))+8 : old(readerPos(i.rd))+8+be32(readerData(i.rd), old(readerPos(i.rd))+4)] && pl_a2 == r
+//@   ensures[consumes-exactly-one-frame] pl_called ==> readerPos(i.rd) == old(readerPos(i.rd)) + 8 + be32(readerData(i.rd), old(readerPos(i.rd))+4)
+//@   ensures[record-iff-line-parsed] ret0 == (pl_called && pl_r0 == nil) && (ret0 ==> ret1 == nil) && (pl_called && pl_r0 != nil ==> ret1 != nil)
+//@   ensures[source-kept] same(i.rd, old(i.rd))
+
+//@ func (*streamIter).Next
+//@   capture pn = call(i.parseNext, 0)
+//@   modifies *, readerPos(i.rd)
+//@   ensures[result-and-error-from-parse] pn_called && pn_a0 == r && ok == pn_r0 && i.err == pn_r1
+
+//@ func (*streamIter).Err
+//@   modifies nothing
+//@   ensures[sticky-error] ret0 == i.err
+
+//@ func (*streamIter).Close
+//@   capture c = call(i.rd.Close, 0)
+//@   ensures[closes-the-reader] c_called && same(c_recv, old(i.rd)) && ret0 == c_r0
+
+//@ func ParseLog
+//@   ensures[fields] typeis[*streamIter](ret0) && same(as[*streamIter](ret0).rd, f) && as[*streamIter](ret0).err == nil && same(as[*streamIter](ret0).resource, resource)
